@@ -61,6 +61,7 @@ const (
 	c29Save    = "save"
 	c29Restore = "restore"
 	c29Discard = "discard"
+	c29Delete  = "delete" // environment event "the snap was removed": DeleteSnapConfig(snap), by anyone, no transaction involved
 )
 
 type c29Op struct {
@@ -87,6 +88,8 @@ func (o c29Op) String() string {
 		return fmt.Sprintf("T%d.read", o.Tx)
 	case c29Commit:
 		return fmt.Sprintf("T%d.commit", o.Tx)
+	case c29Delete:
+		return fmt.Sprintf("delete(%s)", o.snap())
 	}
 	return fmt.Sprintf("%s(%s,%d)", o.Op, o.snap(), o.Rev)
 }
@@ -259,6 +262,17 @@ type c29Ref struct {
 	// snaps whose committed configuration the last operation was entitled to change (commit: the snaps the
 	// transaction wrote to; restore: its snap)
 	entitled map[string]bool
+	// set by a commit with writes, for classifying what a wrong committed configuration looks like (see c29Observe)
+	lastCommit *c29CommitFacts
+}
+
+type c29CommitFacts struct {
+	tx int
+	// per snap that had NO committed entry when the commit started although the transaction's start-time
+	// snapshot has one (the snap's configuration was removed in between): what the committed configuration of
+	// that snap would be if the commit worked from its start-time snapshot instead of the latest configuration
+	// (snapshot for snaps it did not write, snapshot + its writes for snaps it wrote)
+	staleRemoved map[string]string
 }
 
 func (t *c29RefTx) begin(ref *c29Ref) {
@@ -410,6 +424,7 @@ func c29Step(in *c29Inst, ref *c29Ref, op c29Op) []c29Verdict {
 	var bad []c29Verdict
 	sn := op.snap()
 	ref.entitled = map[string]bool{}
+	ref.lastCommit = nil
 	switch op.Op {
 	case c29Set:
 		t := in.tx(op.Tx)
@@ -444,6 +459,13 @@ func c29Step(in *c29Inst, ref *c29Ref, op c29Op) []c29Verdict {
 		rt.begin(ref)
 		t.Commit()
 		if len(rt.writes) != 0 {
+			lc := &c29CommitFacts{tx: op.Tx, staleRemoved: map[string]string{}}
+			for _, s := range ref.snaps {
+				if ref.committed[s] == nil && rt.snapshot[s] != nil {
+					lc.staleRemoved[s] = c29Canon(c29PruneMap(rt.view(s, rt.snapshot[s]), false), true)
+				}
+			}
+			ref.lastCommit = lc
 			// latest committed configuration + exactly the written options of exactly the written snaps
 			for w := range rt.written() {
 				ref.committed[w] = c29PruneMap(rt.view(w, ref.committed[w]), false)
@@ -475,6 +497,15 @@ func c29Step(in *c29Inst, ref *c29Ref, op c29Op) []c29Verdict {
 			bad = append(bad, c29Verdict{"discard-error", fmt.Sprintf("%v: %v", op, err)})
 		}
 		delete(ref.revs[sn], op.Rev)
+	case c29Delete:
+		// the snap's committed entry goes away; saved revisions stay; open transactions keep reading their
+		// snapshot (isolation, like for concurrent commits); a later commit merges its written options into the
+		// latest configuration, in which the snap has no entry
+		if err := DeleteSnapConfig(in.st, sn); err != nil {
+			bad = append(bad, c29Verdict{"delete-error", fmt.Sprintf("%v: %v", op, err)})
+		}
+		delete(ref.committed, sn)
+		ref.entitled[sn] = true
 	}
 	return bad
 }
@@ -536,11 +567,20 @@ func c29ObserveTx(in *c29Inst, ref *c29Ref, i int, snaps, keys []string) []c29Ve
 // c29Observe: everything observable, compared with the reference, for every snap of the world.
 func c29Observe(in *c29Inst, ref *c29Ref, keys []string) []c29Verdict {
 	var bad []c29Verdict
+	resurrected := map[string]bool{}
 	for _, sn := range ref.snaps {
 		got, have := in.committedConfig(sn)
 		gotS := c29Canon(got, have)
 		wantS := c29Canon(ref.committed[sn], ref.committed[sn] != nil)
-		if gotS != wantS {
+		// (an empty entry "{}" that comes back is the same defect although empty and absent options compare equal
+		// otherwise: the entry exists again, e.g. for SaveRevisionConfig)
+		if stale, ok := c29StaleRemoved(ref, sn); ok && gotS == stale && (gotS != wantS || (have && ref.committed[sn] == nil)) {
+			// one defect, one class (whether or not the transaction wrote to the snap): the commit brought back
+			// the configuration of a removed snap from the transaction's start-time copy. The Gets of the
+			// committing transaction on this snap read the same stale copy: not reported again per key.
+			resurrected[sn] = true
+			bad = append(bad, c29Verdict{"committed-resurrected-removed-snap:" + sn, fmt.Sprintf("after T%d.commit the committed configuration of snap %s is %s, expected %s: the snap's configuration was removed after the transaction began, the commit must merge only the written options into the latest committed configuration but wrote back what the transaction saw when it began", ref.lastCommit.tx, sn, gotS, wantS)})
+		} else if gotS != wantS {
 			kind := "committed-mismatch"
 			why := ""
 			if !ref.entitled[sn] {
@@ -578,9 +618,26 @@ func c29Observe(in *c29Inst, ref *c29Ref, keys []string) []c29Verdict {
 		if t == nil {
 			continue
 		}
-		bad = append(bad, c29ObserveTx(in, ref, i, ref.snaps, keys)...)
+		snaps := ref.snaps
+		if len(resurrected) != 0 && ref.lastCommit.tx == i {
+			snaps = nil
+			for _, sn := range ref.snaps {
+				if !resurrected[sn] {
+					snaps = append(snaps, sn)
+				}
+			}
+		}
+		bad = append(bad, c29ObserveTx(in, ref, i, snaps, keys)...)
 	}
 	return bad
+}
+
+func c29StaleRemoved(ref *c29Ref, sn string) (string, bool) {
+	if ref.lastCommit == nil {
+		return "", false
+	}
+	s, ok := ref.lastCommit.staleRemoved[sn]
+	return s, ok
 }
 
 func c29Has(l []string, x string) bool {
@@ -612,6 +669,10 @@ type c29Space struct {
 	vals   []int
 	revs   []int
 	seqLen int
+	// maxDel > 0 adds the environment event delete(snap) = DeleteSnapConfig for every snap of the world, enabled
+	// while the snap has a committed entry, at most maxDel times per path (the number used is part of the
+	// dedup key, so the bound does not make the exploration depend on which path reached a state first)
+	maxDel int
 	// init is executed (and judged) before the exploration starts, by one extra transaction (index ntx) that is not
 	// part of the alphabet: a committed configuration to start from. Paths of cases include it, so replays are
 	// self-contained.
@@ -652,6 +713,11 @@ func (sp c29Space) ops() []c29Op {
 			ops = append(ops, c29Op{Op: c29Save, Snap: sn, Rev: r}, c29Op{Op: c29Restore, Snap: sn, Rev: r}, c29Op{Op: c29Discard, Snap: sn, Rev: r})
 		}
 	}
+	if sp.maxDel > 0 {
+		for _, sn := range sp.world() {
+			ops = append(ops, c29Op{Op: c29Delete, Snap: sn})
+		}
+	}
 	return ops
 }
 
@@ -685,6 +751,7 @@ type c29Pre struct {
 	staleSameSnap bool // ... while the committed configuration of a snap it DID write moved on since its snapshot
 	absentSnap    bool // ... to a snap that has no entry at all in the committed configuration
 	multiSnap     bool // ... with writes to more than one snap
+	afterRemoval  bool // ... while a snap that its start-time snapshot has an entry for was removed since
 	nonEmpty      map[string]bool
 }
 
@@ -692,6 +759,14 @@ func c29Facts(ref *c29Ref, op c29Op) c29Pre {
 	var p c29Pre
 	sn := op.snap()
 	switch op.Op {
+	case c29Delete:
+		// some open transaction has seen or written the snap that goes away
+		for _, o := range ref.txs {
+			if o.begun && (o.snapshot[sn] != nil || o.written()[sn]) {
+				p.interplay = true
+			}
+		}
+		return p
 	case c29Save, c29Discard:
 		p.interplay = len(ref.revs[sn]) != 0 || ref.committed[sn] != nil
 		return p
@@ -715,6 +790,9 @@ func c29Facts(ref *c29Ref, op c29Op) c29Pre {
 		p.nonEmpty = map[string]bool{}
 		for _, s := range ref.snaps {
 			moved := c29Canon(rt.snapshot[s], rt.snapshot[s] != nil) != c29Canon(ref.committed[s], ref.committed[s] != nil)
+			if ref.committed[s] == nil && rt.snapshot[s] != nil {
+				p.afterRemoval = true
+			}
 			if written[s] {
 				p.staleSameSnap = p.staleSameSnap || moved
 				p.absentSnap = p.absentSnap || ref.committed[s] == nil
@@ -725,6 +803,16 @@ func c29Facts(ref *c29Ref, op c29Op) c29Pre {
 		}
 	}
 	return p
+}
+
+func c29Deletes(path []c29Op) int {
+	n := 0
+	for _, o := range path {
+		if o.Op == c29Delete {
+			n++
+		}
+	}
+	return n
 }
 
 type c29Witness struct {
@@ -760,7 +848,11 @@ func c29Explore(r *eng.Run, sp c29Space) {
 		return
 	}
 	startCfg := ref0.committed.canon(sp.world())
-	k0 := hash(in0.key())
+	sk0 := in0.key()
+	if sp.maxDel > 0 {
+		sk0 += "#del=0"
+	}
+	k0 := hash(sk0)
 	in0.st.Unlock()
 	visited[k0[0]%shards][k0] = struct{}{}
 	frontier := [][]c29Op{append([]c29Op(nil), sp.init...)}
@@ -776,7 +868,7 @@ func c29Explore(r *eng.Run, sp c29Space) {
 		}
 		var nmu sync.Mutex
 		witness := map[string]*c29Witness{}
-		var trans, nontriv, gets, setFailed, commitsMerging, crossSnap, absentSnap, emptied, multiSnap int64
+		var trans, nontriv, gets, setFailed, commitsMerging, crossSnap, absentSnap, emptied, multiSnap, afterRemoval, deletes int64
 		var stop int32
 		eng.ParallelFor(len(frontier), func(i int) {
 			if atomic.LoadInt32(&stop) != 0 {
@@ -787,10 +879,21 @@ func c29Explore(r *eng.Run, sp c29Space) {
 				return
 			}
 			path := frontier[i]
-			var lt, ln, lg, lsf, lcm, lcross, labsent, lemptied, lmulti int64
+			var lt, ln, lg, lsf, lcm, lcross, labsent, lemptied, lmulti, lremoved, ldel int64
+			used := c29Deletes(path)
 			for _, op := range ops {
+				if op.Op == c29Delete && used >= sp.maxDel {
+					continue
+				}
 				full := append(append(make([]c29Op, 0, len(path)+1), path...), op)
 				in, ref, _ := c29Run(sp, path, false)
+				if op.Op == c29Delete {
+					if ref.committed[op.snap()] == nil {
+						in.st.Unlock()
+						continue // not enabled: the snap has no configuration to remove
+					}
+					ldel++
+				}
 				pre := c29Facts(ref, op)
 				nWritesBefore := 0
 				if op.Op == c29Set {
@@ -826,6 +929,9 @@ func c29Explore(r *eng.Run, sp c29Space) {
 				if pre.multiSnap {
 					lmulti++
 				}
+				if pre.afterRemoval {
+					lremoved++
+				}
 				if empties {
 					lemptied++
 				}
@@ -851,7 +957,11 @@ func c29Explore(r *eng.Run, sp c29Space) {
 					in.st.Unlock()
 					continue // a state reached through a violation is not extended
 				}
-				k := hash(in.key())
+				sk := in.key()
+				if sp.maxDel > 0 {
+					sk += fmt.Sprintf("#del=%d", c29Deletes(full))
+				}
+				k := hash(sk)
 				sh := k[0] % shards
 				vmu[sh].Lock()
 				_, seen := visited[sh][k]
@@ -888,6 +998,8 @@ func c29Explore(r *eng.Run, sp c29Space) {
 			atomic.AddInt64(&absentSnap, labsent)
 			atomic.AddInt64(&emptied, lemptied)
 			atomic.AddInt64(&multiSnap, lmulti)
+			atomic.AddInt64(&afterRemoval, lremoved)
+			atomic.AddInt64(&deletes, ldel)
 		})
 		var next [][]c29Op
 		for sh := range level {
@@ -909,6 +1021,8 @@ func c29Explore(r *eng.Run, sp c29Space) {
 		r.Add("commits_to_snap_without_entry", absentSnap)
 		r.Add("commits_removing_last_option_of_snap", emptied)
 		r.Add("commits_writing_several_snaps", multiSnap)
+		r.Add("commits_after_removal_of_a_snap_in_snapshot", afterRemoval)
+		r.Add("snap_removals", deletes)
 		if len(sp.world()) > 1 {
 			r.Add("transitions_multi_snap_worlds", trans)
 			r.Add("commits_while_unwritten_snap_moved_on_"+sp.name, crossSnap)
@@ -947,7 +1061,7 @@ func c29Explore(r *eng.Run, sp c29Space) {
 
 func TestVerifC29(t *testing.T) {
 	debug.SetGCPercent(400)
-	r := eng.Start("C29", "model_checking", 150*time.Second, 13*time.Minute)
+	r := eng.Start("C29", "model_checking", 300*time.Second, 13*time.Minute)
 	r.Assume("reference = nested maps keyed by (snap, option path): a transaction's view of a snap is its snapshot of that snap (or the latest committed configuration of that snap: the statement does not choose, both are accepted per Get) with its writes to that snap applied in order, nulls removed; commit = latest committed configuration with the transaction's writes applied in order to exactly the snaps it wrote, nulls removed, every other snap untouched; revision operations touch only their snap",
 		"empty maps and absent options are not distinguished (whether removing the last entry of a map leaves an empty map is not part of the statement)",
 		"a Set whose path runs through a non-map value of the transaction's view or of its snapshot may be refused; if refused it must change nothing, if accepted it must take effect",
@@ -1021,12 +1135,14 @@ func TestVerifC29(t *testing.T) {
 	var spaces []c29Space
 	if r.Quick() {
 		spaces = []c29Space{
-			{name: "2tx-2snap", ntx: 2, snaps: two, keys: ab, vals: []int{0, 1, 2}, seqLen: 4},
-			{name: "2tx-2snap-deep", ntx: 2, snaps: two, keys: ab, vals: []int{0, 1}, seqLen: 5},
-			{name: "2tx-2snap-preset", ntx: 2, snaps: two, keys: ab, vals: []int{0, 1}, seqLen: 5, init: preset(2)},
-			{name: "3tx-2snap", ntx: 3, snaps: two, keys: ab, vals: []int{0, 1}, seqLen: 4},
-			{name: "3tx-2snap-preset", ntx: 3, snaps: two, keys: ab, vals: []int{0, 1}, seqLen: 4, init: preset(3)},
-			{name: "revisions-2snap", ntx: 1, snaps: two, keys: []string{"a"}, vals: []int{0, 1}, revs: []int{1, 2}, seqLen: 6},
+			{name: "2tx-2snap", ntx: 2, snaps: two, keys: ab, vals: []int{0, 1, 2}, seqLen: 4, maxDel: 1},
+			{name: "2tx-2snap-deep", ntx: 2, snaps: two, keys: ab, vals: []int{0, 1}, seqLen: 5, maxDel: 1},
+			{name: "2tx-2snap-preset", ntx: 2, snaps: two, keys: ab, vals: []int{0, 1}, seqLen: 5, init: preset(2), maxDel: 1},
+			{name: "3tx-2snap", ntx: 3, snaps: two, keys: ab, vals: []int{0, 1}, seqLen: 4, maxDel: 1},
+			{name: "3tx-2snap-preset", ntx: 3, snaps: two, keys: ab, vals: []int{0, 1}, seqLen: 4, init: preset(3), maxDel: 1},
+			{name: "revisions-2snap", ntx: 1, snaps: two, keys: []string{"a"}, vals: []int{0, 1}, revs: []int{1, 2}, seqLen: 6, maxDel: 1},
+			// sibling options a and d: a commit to a removed snap must store exactly the written options
+			{name: "1tx-2snap-removal", ntx: 1, snaps: two, keys: []string{"a", "d"}, vals: []int{0, 1}, seqLen: 6, maxDel: 1},
 			{name: "2tx", ntx: 2, keys: c29AllKeys, vals: []int{0, 1, 2, 3}, seqLen: 4},
 			{name: "2tx-deep", ntx: 2, keys: ab, vals: []int{0, 1, 2}, seqLen: 6},
 			{name: "revisions", ntx: 1, keys: []string{"a", "a.b", "d"}, vals: []int{0, 1, 2}, revs: []int{1, 2}, seqLen: 6},
@@ -1034,13 +1150,15 @@ func TestVerifC29(t *testing.T) {
 		}
 	} else {
 		spaces = []c29Space{
-			{name: "2tx-2snap", ntx: 2, snaps: two, keys: ab, vals: []int{0, 1, 2}, seqLen: 5},
-			{name: "2tx-2snap-deep", ntx: 2, snaps: two, keys: ab, vals: []int{0, 1}, seqLen: 6},
-			{name: "2tx-2snap-preset", ntx: 2, snaps: two, keys: ab, vals: []int{0, 1, 2}, seqLen: 5, init: preset(2)},
-			{name: "3tx-2snap", ntx: 3, snaps: two, keys: ab, vals: []int{0, 1, 2}, seqLen: 4},
-			{name: "3tx-2snap-preset", ntx: 3, snaps: two, keys: ab, vals: []int{0, 1}, seqLen: 5, init: preset(3)},
-			{name: "revisions-2snap", ntx: 2, snaps: two, keys: []string{"a"}, vals: []int{0, 1}, revs: []int{1, 2}, seqLen: 6},
-			{name: "2tx-2snap-full", ntx: 2, snaps: two, keys: c29AllKeys, vals: []int{0, 1, 2, 3}, seqLen: 4},
+			{name: "2tx-2snap", ntx: 2, snaps: two, keys: ab, vals: []int{0, 1, 2}, seqLen: 5, maxDel: 2},
+			{name: "2tx-2snap-deep", ntx: 2, snaps: two, keys: ab, vals: []int{0, 1}, seqLen: 6, maxDel: 2},
+			{name: "2tx-2snap-preset", ntx: 2, snaps: two, keys: ab, vals: []int{0, 1, 2}, seqLen: 5, init: preset(2), maxDel: 2},
+			{name: "3tx-2snap", ntx: 3, snaps: two, keys: ab, vals: []int{0, 1, 2}, seqLen: 4, maxDel: 2},
+			{name: "3tx-2snap-preset", ntx: 3, snaps: two, keys: ab, vals: []int{0, 1}, seqLen: 5, init: preset(3), maxDel: 2},
+			{name: "revisions-2snap", ntx: 2, snaps: two, keys: []string{"a"}, vals: []int{0, 1}, revs: []int{1, 2}, seqLen: 6, maxDel: 2},
+			{name: "1tx-2snap-removal", ntx: 1, snaps: two, keys: []string{"a", "d"}, vals: []int{0, 1}, seqLen: 7, maxDel: 2},
+			{name: "2tx-2snap-removal", ntx: 2, snaps: two, keys: []string{"a", "d"}, vals: []int{0, 1}, seqLen: 5, maxDel: 2},
+			{name: "2tx-2snap-full", ntx: 2, snaps: two, keys: c29AllKeys, vals: []int{0, 1, 2, 3}, seqLen: 4, maxDel: 2},
 			{name: "2tx", ntx: 2, keys: c29AllKeys, vals: []int{0, 1, 2, 3, 4}, seqLen: 5},
 			{name: "2tx-deep", ntx: 2, keys: ab, vals: []int{0, 1, 2}, seqLen: 8},
 			{name: "revisions", ntx: 2, keys: []string{"a", "a.b", "d"}, vals: []int{0, 1, 2}, revs: []int{1, 2}, seqLen: 6},
@@ -1056,7 +1174,7 @@ func TestVerifC29(t *testing.T) {
 				s = append(s, c29ValueNames[v])
 			}
 			return s
-		}(), "revisions": sp.revs, "operations_per_state": len(sp.ops()), "max_sequence_length": sp.seqLen, "start": c29Trace(sp.init)}
+		}(), "revisions": sp.revs, "snap_removals_per_path": sp.maxDel, "operations_per_state": len(sp.ops()), "max_sequence_length": sp.seqLen, "start": c29Trace(sp.init)}
 		if r.TimeUp() {
 			r.Cap("time_skipped", "space "+sp.name+" not started")
 			continue
